@@ -325,7 +325,7 @@ def finish(res, checker_cmd, level='proof'):
     if new_violations or res.broken:
         rc = 1
         os.makedirs(os.path.join(VERIF, 'replays'), exist_ok=True)
-        replay_path = os.path.join(VERIF, 'replays', '%s-%d-%d.json' % (res.prop, res.seed, int(time.time())))
+        replay_path = os.path.join(VERIF, 'replays', '%s-%d-%d-%d.json' % (res.prop, res.seed, int(time.time()), os.getpid()))
         replay = dict(property=res.prop, seed=res.seed, tier=res.tier,
                       failing_inputs=new_violations[:20],
                       broken_obligations=res.broken[:20],
